@@ -10,6 +10,7 @@ import Mouette.Generated.C04Glue
 import Mouette.Generated.C04Wrap
 import Mouette.Model.IOStl
 import Mouette.Lemmas.C04SourceAttr
+import Mouette.Lemmas.C04SourceGeo
 import Mouette.Lemmas.C04Save
 /-!
 # C04 (round 4) — the theorems of `Props/C04.lean` transferred to what the SOURCE says now
@@ -347,6 +348,19 @@ theorem import_stl_wrapper_source [DecidableEq C] (cd : Codec C) (file : File) (
   unfold C04Wrap.importStl importStlMerged
   cases stlSoup cd file <;> rfl
 
+/-! ### round 8: `geogram_ascii.py: export_attribute` and the chunk markers of `is_chunk_header` read from the source -/
+
+/-- for a dense attribute `g` of the chunk model (container / name written between quotes, `dim * size` values): `export_attribute` writes
+the header lines `[ATTR]`, "container", "name", "type", byte size, arity and then one datum per line, element by element and component
+by component (bool as 0 / 1 through `int()`): exactly `chunkLines (attrChunk g)` of the hand model -/
+theorem export_attribute_bridge (size : Nat) (cname aname : String) (g : Geo.GAttr)
+    (hc : g.cont.name = "\"" ++ cname ++ "\"") (hn : g.name = "\"" ++ aname ++ "\"") (hl : g.vals.length = g.dim * size) :
+    C04GW.exportAttribute size cname aname (viewOf g) = Geo.chunkLines (Geo.attrChunk g) :=
+  exportAttribute_bridge size cname aname g hc hn hl
+
+/-- a line starts a chunk exactly when it is one of the markers `is_chunk_header` tests for -/
+theorem chunk_markers_bridge (s : String) : Geo.isHeader (.kw s) = C04GW.chunkMarkers.contains s := isHeader_markers s
+
 /-! ### non-vacuity -/
 
 private def demo : Raw Unit :=
@@ -379,6 +393,9 @@ example : (C04A.importAttribute 1 [0, 7, 5, 0] ({ dflt := 5 } : SAttr Nat)).rows
     (C04A.importAttribute 1 [0, 7, 5, 0] ({ dflt := 5 } : SAttr Nat)).get 1 2 = [5] ∧
     (C04A.importAttribute 2 [0, 0, 1, 2, 9] ({ dflt := 0 } : SAttr Nat)).get 2 0 = [0, 0] ∧
     (C04A.importAttribute 2 [0, 0, 1, 2, 9] ({ dflt := 0 } : SAttr Nat)).get 2 2 = [0, 0] := by decide
+example : C04GW.exportAttribute 2 "GEO::Mesh::facets" "flag" (viewOf (Geo.GAttr.mk Geo.Cont.facets "\"flag\"" Geo.AType.bool 2 [.int 1, .int 0, .int 0, .int 1]))
+    = [[.kw "[ATTR]"], [.kw "\"GEO::Mesh::facets\""], [.kw "\"flag\""], [.kw "\"bool\""], [.int 1], [.int 2], [.int 1], [.int 0], [.int 0], [.int 1]] := by
+  decide
 example : C04D.instantiate none (dim demo) = some "VolumeMesh" ∧ C04D.instantiate (some 2) 0 = some "SurfaceMesh" := by decide
 
 end Mouette.Props.C04Source
